@@ -9,7 +9,16 @@ MUTANTS = [
     dict(property='C19', name='pgamma log returns logpdf', file=D, old="return st.gamma.logcdf(q, a=shape, scale=1.0/rate)", new="return st.gamma.logpdf(q, a=shape, scale=1.0/rate)"),
     dict(property='C19', name='punif scale=max', file=D, old="return st.uniform.cdf(q, loc=min, scale=max-min)", new="return st.uniform.cdf(q, loc=min, scale=max)"),
     dict(property='C19', name='rnorm n==1 path ignores seed', file=D, old="        return rvs(loc=mean, scale=sd, size=n)[0]", new="        return np.random.normal(loc=mean, scale=sd, size=n)[0]"),
-    dict(property='C19', name='nb2pmf drops a term', file=D, old="logpmf = logpmf_p1 + logpmf_p2 + logpmf_p3 + logpmf_p4 + logpmf_p5", new="logpmf = logpmf_p1 + logpmf_p2 + logpmf_p3 + logpmf_p4"),
+    dict(property='C19', name='nb2pmf drops a term', file=D, old="logpmf = logpmf_p1+logpmf_p2+logpmf_p3+logpmf_p4+logpmf_p5", new="logpmf = logpmf_p1+logpmf_p2+logpmf_p3+logpmf_p4"),
     dict(property='C19', name='test_seed(int) uses entropy', file=D, old="        return np.random.RandomState(seed)\n    elif seed is False:", new="        return np.random.RandomState()\n    elif seed is False:"),
     dict(property='C19', name='dbinom swaps size/prob', file=D, old="return st.binom.pmf(x, n=size, p=prob)", new="return st.binom.pmf(x, n=prob, p=size)"),
+]
+LT = 'pygom/loss/loss_type.py'
+MUTANTS += [
+    dict(property='C14', name='Normal.loss drops the 1/2 on log 2', file=LT, old="logpdf_p2 = np.log(2)/2", new="logpdf_p2 = np.log(2)"),
+    dict(property='C14', name='Poisson.diff2Loss uses yhat instead of yhat**2', file=LT, old="return self._y/(yhat**2)", new="return self._y/(yhat)"),
+    dict(property='C14', name='NegBinom.diff_loss wrong denominator', file=LT, old="first_derivs_yhat = k*-residual/(yhat*(k+yhat))", new="first_derivs_yhat = k*-residual/(yhat*(k+yhat)**2)"),
+    dict(property='C14', name='Square.diff_loss sign', file=LT, old="return -2*self.residual(yhat, apply_weighting)", new="return 2*self.residual(yhat, apply_weighting)"),
+    dict(property='C14', name='Gamma.diff2Loss drops y', file=LT, old="return shape*(residual+self._y)/yhat**3", new="return shape*(residual)/yhat**3"),
+    dict(property='C14', name='gamma_mu_shape wrong scale term', file=D, old="logpdf_p3= -shape*np.log(mu/shape)", new="logpdf_p3= -shape*np.log(mu)"),
 ]
